@@ -259,6 +259,9 @@ func (st *c16st) step(op *Sexp) string {
 		if err != nil {
 			return "err"
 		}
+		if why := c16byteInstance(b, false); why != "" {
+			return "INSTANCE-MISMATCH " + why
+		}
 		return string(b)
 	case "unjson":
 		if err := st.list(a[0]).UnmarshalJSON(jsonInts(a[1])); err != nil {
@@ -303,6 +306,9 @@ func (st *c16st) step(op *Sexp) string {
 		if err != nil {
 			return "err"
 		}
+		if why := c16byteInstance(b, true); why != "" {
+			return "INSTANCE-MISMATCH " + why
+		}
 		return string(b)
 	case "sunjson":
 		if err := st.stack(a[0]).UnmarshalJSON(jsonInts(a[1])); err != nil {
@@ -340,3 +346,58 @@ func c16case(s *Sexp) string {
 }
 
 func init() { handlers["C16"] = c16case; handlers["C17"] = c16case }
+
+// c16byteInstance: the containers are generic; the same sequence held in a List[uint8] / Stack[uint8]
+// (an element type encoding/json treats specially when it sits in a slice) must marshal to the same
+// JSON array of numbers and read its own output back.
+func c16byteInstance(doc []byte, stack bool) string {
+	var vals []int
+	if err := json.Unmarshal(doc, &vals); err != nil {
+		return ""
+	}
+	want := "["
+	for i, v := range vals {
+		if i > 0 {
+			want += ","
+		}
+		want += fmt.Sprint(uint8(v))
+	}
+	want += "]"
+	var got []byte
+	var err error
+	var back []byte
+	if stack {
+		s8 := &dt.Stack[uint8]{}
+		for i := len(vals) - 1; i >= 0; i-- {
+			s8.Push(uint8(vals[i]))
+		}
+		if got, err = s8.MarshalJSON(); err != nil {
+			return "Stack[uint8].MarshalJSON: " + err.Error()
+		}
+		r8 := &dt.Stack[uint8]{}
+		if err = r8.UnmarshalJSON(got); err != nil {
+			return "Stack[uint8] cannot read its own JSON " + string(got) + ": " + err.Error()
+		}
+		back, _ = r8.MarshalJSON()
+	} else {
+		l8 := &dt.List[uint8]{}
+		for _, v := range vals {
+			l8.PushBack(uint8(v))
+		}
+		if got, err = l8.MarshalJSON(); err != nil {
+			return "List[uint8].MarshalJSON: " + err.Error()
+		}
+		r8 := &dt.List[uint8]{}
+		if err = r8.UnmarshalJSON(got); err != nil {
+			return "List[uint8] cannot read its own JSON " + string(got) + ": " + err.Error()
+		}
+		back, _ = r8.MarshalJSON()
+	}
+	if string(got) != want {
+		return "the uint8 instance marshals to " + string(got) + " but the sequence is " + want
+	}
+	if string(back) != want {
+		return "the uint8 instance round-trips to " + string(back) + " but the sequence is " + want
+	}
+	return ""
+}
